@@ -7,15 +7,18 @@
      pct_wf t            every '%' of t starts "%" HEXDIG HEXDIG   (the grammar allows no other '%')
      uri_pct_wf u        pct_wf of user info, registered name, path segments, query, fragment
      uri_wf u            uri_pct_wf u, hostText = ipFuture text when the host is an IPvFuture literal,
-                         and not (no host and path = one empty segment); what the parser produces
+                         not (no host and path = one empty segment), and not ambiguous_path u (a path that
+                         would be written with "//" in front without being an authority); what the parser
+                         produces
      relative_ref u      no scheme, no host, not absolutePath: the case in which the C code removes dot
                          segments with its "relative" rule
    and a [_refuted] theorem shows that it cannot be dropped.
    [components u] is every field but [owner].
 
    Not claimed here (see the end of the file): the path of a relative-path reference equals the
-   specification's (known findings D7a/b/c), the "/." guard (D14), and the equality of the path with
-   RFC 3986 5.2.4 on the path *text* (shared with C06, Proofs/ResolveProofs.v). *)
+   specification's (known findings D7a/b/c), and the equality of the path with RFC 3986 5.2.4 on the
+   path *text* (shared with C06, Proofs/ResolveProofs.v).  The "/." guard of a host-less path that would
+   begin with "//" (was finding D14, repaired in uriNormalizeSyntaxEngine) is part of C08_full_fields. *)
 From Coq Require Import List NArith Bool.
 From UP Require Import Base.Chars Model.Uri Model.Common Model.Normalize Model.Parse Spec.NormalWf
   Proofs.NormalizeProofs.
@@ -72,8 +75,9 @@ Print Assumptions C08_host_is_spec.
 (* ---- C. what normalization does, field by field, and mask exactness --------------------- *)
 (* full normalization in the vocabulary of the specification: scheme and IPvFuture literal lower-cased,
    user info / query / fragment / every path segment percent-normalized, registered name percent-
-   normalized and lower-cased, then dot segments removed by the walk of uriRemoveDotSegmentsEx and a
-   lone empty segment of a host-less URI dropped; ip4, ip6, port, absolutePath as they were *)
+   normalized and lower-cased, then dot segments removed by the walk of uriRemoveDotSegmentsEx, a "."
+   segment put in front of a path that would otherwise be written with "//" in front (uriFixAmbiguity)
+   and a lone empty segment of a host-less URI dropped; ip4, ip6, port, absolutePath as they were *)
 Theorem C08_full_fields : forall u, uri_pct_wf u = true ->
   normalize 63 u =
   mkUri (omap (map Normal.lower) (scheme u))
@@ -89,6 +93,11 @@ Theorem C08_full_fields : forall u, uri_pct_wf u = true ->
          let out := match segs with
                     | [] => []
                     | _ => rds_walk (relative_ref u) (is_host_set u) (absolutePath u) [] segs
+                    end in
+         let out := match absolutePath u, out with
+                    | true, [] :: _ :: _ => [46] :: out
+                    | false, [] :: [] :: _ => if is_host_set u then out else [46] :: out
+                    | _, _ => out
                     end in
          if negb (is_host_set u) then match out with [[]] => [] | _ => out end else out)
         (omap (Normal.pct_norm false) (query u))
@@ -153,25 +162,33 @@ Theorem C08_mask_zero_normal : forall u, uri_wf u -> mask_required u = 0 ->
 Proof. exact mask_zero_normal. Qed.
 Print Assumptions C08_mask_zero_normal.
 
-(* the three parts of uri_wf are needed: on URI objects the parser cannot produce the query says 0
+(* the four parts of uri_wf are needed: on URI objects the parser cannot produce the query says 0
    although full normalization changes the object *)
 Theorem C08_mask_zero_lone_empty_refuted :                     (* host-less, path = [""] *)
-  exists u, uri_pct_wf u = true /\ future_consistent u /\ mask_required u = 0
+  exists u, uri_pct_wf u = true /\ future_consistent u /\ ambiguous_path u = false /\ mask_required u = 0
             /\ components (normalize 63 u) <> components u.
 Proof. exact mask_zero_lone_empty_refuted. Qed.
 Print Assumptions C08_mask_zero_lone_empty_refuted.
 
 Theorem C08_mask_zero_malformed_pct_refuted :                  (* query "%zz" becomes "%00" *)
-  exists u, future_consistent u /\ lone_empty_hostless u = false /\ mask_required u = 0
+  exists u, future_consistent u /\ lone_empty_hostless u = false /\ ambiguous_path u = false /\ mask_required u = 0
             /\ components (normalize 63 u) <> components u.
 Proof. exact mask_zero_malformed_pct_refuted. Qed.
 Print Assumptions C08_mask_zero_malformed_pct_refuted.
 
 Theorem C08_mask_zero_future_inconsistent_refuted :            (* ipFuture "vA.B", hostText NULL *)
-  exists u, uri_pct_wf u = true /\ lone_empty_hostless u = false /\ mask_required u = 0
+  exists u, uri_pct_wf u = true /\ lone_empty_hostless u = false /\ ambiguous_path u = false /\ mask_required u = 0
             /\ components (normalize 63 u) <> components u.
 Proof. exact mask_zero_future_inconsistent_refuted. Qed.
 Print Assumptions C08_mask_zero_future_inconsistent_refuted.
+
+(* since the repair of D14 normalization guards a path that would be written with "//" in front; the query
+   does not report it (no library call produces such an object unguarded) *)
+Theorem C08_mask_zero_ambiguous_refuted :                      (* host-less, absolutePath, path = ["", "a"] *)
+  exists u, uri_pct_wf u = true /\ future_consistent u /\ lone_empty_hostless u = false /\ mask_required u = 0
+            /\ components (normalize 63 u) <> components u.
+Proof. exact mask_zero_ambiguous_refuted. Qed.
+Print Assumptions C08_mask_zero_ambiguous_refuted.
 
 (* ---- E. idempotence ------------------------------------------------------------------- *)
 (* "applying it twice equals applying it once" is false in the model (and in the C code): the parsed
